@@ -61,13 +61,28 @@ def run(ctx):
     per = {}
     for b, blk, i, st in ws:
         per.setdefault(root_fn(b.path), []).append((b, blk, i, st))
-    ctx.check({k: len(v) for k, v in per.items()} == WRITERS, "C43.writers", G, "BaseAccount.sequence is written only at the frozen sites: %s" % {k.split("::")[-1]: len(v) for k, v in per.items()}, key="C43.writers")
-    for b, blk, i, st in per.get(C + "broadcast_tx_with_account", []):
+    ctx.check(set(per) == set(WRITERS) and all(len(v) >= 1 for v in per.values()), "C43.writers", G, "BaseAccount.sequence is written only by the frozen set of functions: %s" % {k.split("::")[-1]: len(v) for k, v in per.items()}, key="C43.writers")
+    bw = per.get(C + "broadcast_tx_with_account", [])
+    for b, blk, i, st in bw:
         e = b.expr_rvalue(st["r"], (), blk, 0)
         inc = any(n[0] == "bin" and n[1].startswith("Add") and any(m[0] == "const" and m[1] == 1 for m in (n[2], n[3])) for n in walk(e))
-        conds = b.edge_conditions(blk)
-        arm = any(has_leaf(ctx.leaves(b.switch_discr_expr(s)), "call:" + C + "broadcast_tx_with_cfg") for s, lab, d in conds)
-        ctx.check(inc and arm, "C43.advance", b.path, "sequence += 1 only on an arm of the broadcast result (accepted, or already in the mempool cache)", site=b.loc(blk, i), key="C43.advance|%d" % len([1 for s, lab, d in conds]))
+        ctx.check(inc, "C43.advance", b.path, "the sequence is advanced by exactly one", site=b.loc(blk, i), key="C43.advance")
+    if bw:
+        wb = bw[0][0]
+        incs = {blk for _b, blk, _i, _st in bw}
+        acc_b = [x["block"] for x in exit_sites(wb) if x["kind"] == "accept"]
+        rej_b = [x["block"] for x in exit_sites(wb) if x["kind"] == "reject"]
+        # one advance per accepted broadcast: every accepting exit (plain success or `already in the mempool
+        # cache`) is reached only through an increment, no path passes two, and no rejecting exit is reached
+        # after one
+        miss = wb.path_to([0], acc_b, (), incs) if acc_b else None
+        ctx.check(bool(acc_b) and miss is None, "C43.advance.every-accept", wb.path, "every accepted broadcast advances the local sequence", key="C43.advance.every-accept", path=wb.render_path(miss) if miss else None)
+        twice = any(wb.path_to(wb.succ(a1), [a2]) is not None for a1 in incs for a2 in incs)
+        ctx.check(not twice, "C43.advance.once", wb.path, "no path advances the sequence twice", key="C43.advance.once")
+        # (a rejecting return assigned in the very block of the increment counts as "after": the return
+        # value is the last thing a block assigns)
+        after = any(a1 in rej_b or wb.path_to(wb.succ(a1), rej_b) is not None for a1 in incs) if rej_b else False
+        ctx.check(not after, "C43.advance.only-accepted", wb.path, "a rejected broadcast never advances the sequence", key="C43.advance.only-accepted")
     for fn in (C + "sign_and_broadcast_tx", C + "sign_and_broadcast_blobs"):
         for b, blk, i, st in per.get(fn, []):
             e = b.expr_rvalue(st["r"], (), blk, 0)
